@@ -27,7 +27,12 @@ where
     where
         I: IntoIterator<Item = Pixel<Self::Color>>,
     {
+        let bounding_box = self.bounding_box();
         for pixel in pixels {
+            // Pixels outside of the display are discarded, as required by `DrawTarget`
+            if !bounding_box.contains(pixel.0) {
+                continue;
+            }
             let x = pixel.0.x as u16;
             let y = pixel.0.y as u16;
 
@@ -44,7 +49,12 @@ where
     {
         use crate::batch::DrawBatch;
 
-        self.draw_batch(item)
+        // Pixels outside of the display are discarded, as required by `DrawTarget`
+        let bounding_box = self.bounding_box();
+        self.draw_batch(
+            item.into_iter()
+                .filter(|pixel| bounding_box.contains(pixel.0)),
+        )
     }
 
     fn fill_contiguous<I>(&mut self, area: &Rectangle, colors: I) -> Result<(), Self::Error>
